@@ -971,8 +971,12 @@ class Visitor : public RecursiveASTVisitor<Visitor> {
     f.str("usr", usr);
     f.str("qname", C.qname(FD));
     f.str("name", FD->getNameAsString());
-    f.str("file", C.relOf(FD->getLocation()));
-    f.num("line", C.lineOf(FD->getLocation()));
+    // the body's location: for instantiated members getLocation() is the
+    // in-class declaration, which may live in another file than the body
+    f.str("file", C.relOf(Body->getBeginLoc()).empty() ? C.relOf(FD->getLocation())
+                                                       : C.relOf(Body->getBeginLoc()));
+    f.num("line", C.relOf(Body->getBeginLoc()).empty() ? C.lineOf(FD->getLocation())
+                                                       : C.lineOf(Body->getBeginLoc()));
     f.num("endline", C.lineOf(Body->getEndLoc()));
     f.str("ret", C.tstr(FD->getReturnType()));
     const char* kind = "function";
